@@ -1662,7 +1662,10 @@ class _TotalJacInfo(object):
                             ln_solver = model._linear_solver
                             with model._scaled_context_all():
                                 model._linearize(sub_do_ln=ln_solver._linearize_children())
-                            ln_solver._linearize()
+                                # the root linear solver is linearized in the scaled state like
+                                # every other one (see System.run_linearize): a DirectSolver
+                                # without an assembled jacobian calls _apply_linear here.
+                                ln_solver._linearize()
                         finally:
                             model._tot_jac = None
 
